@@ -79,10 +79,7 @@ def compare(rep, exe, plans, label="expand"):
                 else:
                     rep.count("theorem-not-applicable:C16_kinds_align_family (familyKindsMatch_ha fails)")
             # helper trait (trait mode)
-            if any(k_ == "cfgoff" for k_, _, _ in p.items) and p.mode == "inherent":
-                # attributes of inherent items are copied onto the helper trait's prototypes (/repo 2b7edb4); the model's prototypes carry none
-                rep.count(label + ":helper-trait-unmodelled(item attributes)")
-            elif mv[0][0] == "unmodelled":
+            if mv[0][0] == "unmodelled":
                 rep.count(label + ":helper-trait-unmodelled")
             else:
                 want = fam["helper"]
